@@ -3962,7 +3962,15 @@ class TLSConnection(TLSRecordLayer):
         # start negotiating the parameters of the connection
 
         sni_ext = clientHello.getExtension(ExtensionType.server_name)
-        if sni_ext:
+        if sni_ext and sni_ext.serverNames is not None and \
+                not sni_ext.serverNames:
+            # RFC 6066, section 3: ServerNameList server_name_list<1..2^16-1>
+            for result in self._sendError(
+                    AlertDescription.decode_error,
+                    "Empty server_name_list in server_name extension"):
+                yield result
+        # entries of a name type we don't know are passed over
+        if sni_ext and sni_ext.hostNames:
             name = sni_ext.hostNames[0].decode('ascii', 'strict')
             # warn the client if the name didn't match the expected value
             if sni and sni != name:
